@@ -160,6 +160,11 @@ def run_translator(db, P, case):
             q = orm.select(QTEXT, {'P': P, 'x': x})
             rows = sorted(q[:])
             return [list(q._translator.fixed_param_values.values()), rows]
+    alone = {}
+    for x in set(case['xs']):                               # what each thread gets running alone, with cold caches
+        db._translator_cache = {}
+        db._constructed_sql_cache = {}
+        alone[x] = one(x)[1]
     db._translator_cache = SchedDict()
     db._constructed_sql_cache = {}
     if case['warm'] is not None: one(case['warm'])          # main thread is not managed: passes through
@@ -169,8 +174,7 @@ def run_translator(db, P, case):
     for x, r in zip(case['xs'], results):
         if r[0] == 'ok':
             fixed, rows = r[1]
-            alone = sorted(nm[x:] for nm in NAMES)
-            res.append({'kind': 'got', 'fixed': fixed, 'rows_ok': rows == alone})
+            res.append({'kind': 'got', 'fixed': fixed, 'rows_ok': rows == alone[x]})
         elif r[0] == 'exc': res.append({'kind': 'exc', 'name': r[1], 'text': r[2]})
         else: res.append({'kind': 'unfinished'})
     vals = [list(t.fixed_param_values.values()) for t in dict.values(db._translator_cache)]
@@ -187,9 +191,9 @@ CACHES = {
     'string2ast': dict(pool=['a + 1', 'b.c', 'a + 1', 'f(x, 2)'],
                        install=lambda d: setattr(core, 'string2ast_cache', d),
                        call=lambda s: ast.dump(core.string2ast(s))),
-    'adapt_sql': dict(pool=['select $x from t', 'select 1', 'select $x from t', 'select $(a + b), $c'],
+    'adapt_sql': dict(pool=[['select $x from t', 'qmark'], ['select 1', 'qmark'], ['select $x from t', 'qmark'], ['select $x from t', 'numeric']],
                       install=lambda d: setattr(core, 'adapted_sql_cache', d),
-                      call=lambda s: (lambda r: [r[0], list(r[1].co_names), repr(r[1].co_consts)])(core.adapt_sql(s, 'qmark'))),
+                      call=lambda s: (lambda r: [r[0], list(r[1].co_names), repr(r[1].co_consts)])(core.adapt_sql(s[0], s[1]))),
     'decompile': dict(pool=[0, 1, 0, 2],
                       install=lambda d: setattr(decompiling, 'ast_cache', d),
                       call=lambda i: ast.dump(decompiling.decompile(LAMBDAS[i])[0])),
@@ -280,7 +284,7 @@ def run_cross(tmp):
         if b.alive: b.leave(None)
         a.abort()
         raised = rb[0] == 'exc'
-        out.append({'op': op, 'loaded': loaded, 'raised': raised,
+        out.append({'op': op, 'loaded': loaded, 'raised': raised, 'exc': type(rb[1]).__name__ if raised else None,
                     'detail': ('%s: %s' % (type(rb[1]).__name__, str(rb[1])[:120])) if raised else repr(rb[1])[:80]})
     return {'table': out, 'lock_left_held': db.provider.transaction_lock.locked()}
 
